@@ -1,6 +1,6 @@
 """Shared runner for the protocol-independent properties judged on implementation traces of every
 protocol: C15 (poll-judge) and C03 (own-judge)."""
-import os, time, json
+import os, re, time, json
 from . import core, build, lean, sim, protos
 
 
@@ -63,8 +63,14 @@ def run_generic(PROP, MODULES, judge_comp, tier, seed, replay, augment, n_quick,
                     "ops": ops, "rc": c["rc"], "last_output": c["last"], "stderr": c["stderr"]})
     for jv in res.judge_viol:
         sig = jv["clause"]
-        kf = next((k for k in known if k.get("status") == "open" and k.get("clause") == sig
-                   and any(o.startswith(k.get("open_prefix", "open")) for o in jv["ops"][:3])), None)
+        kf = None
+        for k in known:
+            if k.get("status") != "open":
+                continue
+            mt = k.get("match", {})
+            if mt.get("clause_contains", "\0") in sig and any(re.search(mt.get("open_regex", "^open"), o) for o in jv["ops"][:3]):
+                kf = k
+                break
         if kf:
             if kf["key"] not in reported:
                 reported.add(kf["key"])
